@@ -1229,6 +1229,185 @@ theorem C06_truncGauss_untruncated_counterexample (mu sigma : ℝ) (hs : 0 < sig
         iff_false]; intro h; linarith [h.1, h.2]
     simp [this]
 
+/-! ## composed models: the support of the scored density and the support of the samples -/
+
+/-- the own value of individual `i` in a point-mass part: the pooled value, resp. the individual's row -/
+def deltaRow (k : Kind) (i : Nat) : Nat := if k = .pooled then 0 else i
+
+theorem pcSubTh_bare (nIds : Nat) (s : SubModel) (hc : s.nCov = 0) (params : Nat → ℝ)
+    (curParam : Nat) (cov : Nat → Nat → ℝ) (curCov i p d : Nat) :
+    pcSubTh nIds s params curParam cov curCov i p d = params (curParam + p * s.nDim + d) := by
+  simp [pcSubTh, hc, sliceTh]
+
+theorem delta_part_inside (k : Kind) (hk : k = .pooled ∨ k = .hetero) (nIds nDim : Nat)
+    (th : Nat → Nat → Nat → ℝ) (eta : Nat → Nat → ℝ)
+    (h : ∀ i d, i < nIds → d < nDim → eta i d = th i (deltaRow k i) d) :
+    popLL k nIds nDim th eta = .val 0 := by
+  rcases hk with rfl | rfl
+  · have : iany2 nIds nDim (fun i d => !(le (eta i d) (th i 0 d) && le (th i 0 d) (eta i d))) = false := by
+      apply iany2_false
+      intro i d hi hd
+      have := h i d hi hd
+      simp [deltaRow] at this
+      simp [this]
+    simp only [popLL, this]
+    simp
+  · have : iany2 nIds nDim (fun i d => !(le (eta i d) (th i i d) && le (th i i d) (eta i d))) = false := by
+      apply iany2_false
+      intro i d hi hd
+      have := h i d hi hd
+      simp [deltaRow] at this
+      simp [this]
+    simp only [popLL, this]
+    simp
+
+theorem delta_part_outside (k : Kind) (hk : k = .pooled ∨ k = .hetero) (nIds nDim : Nat)
+    (th : Nat → Nat → Nat → ℝ) (eta : Nat → Nat → ℝ) (i d : Nat) (hi : i < nIds) (hd : d < nDim)
+    (hne : eta i d ≠ th i (deltaRow k i) d) :
+    popLL k nIds nDim th eta = .negInf := by
+  have key : ∀ a b : ℝ, a ≠ b → (!(le a b && le b a)) = true := by
+    intro a b hab
+    simp only [le_real, Bool.not_eq_true', Bool.and_eq_false_iff, decide_eq_false_iff_not, not_le]
+    rcases lt_or_gt_of_ne hab with h | h
+    · right; exact h
+    · left; exact h
+  rcases hk with rfl | rfl
+  · have : iany2 nIds nDim (fun i d => !(le (eta i d) (th i 0 d) && le (th i 0 d) (eta i d))) = true :=
+      (iany2_real _ _ _).2 ⟨i, d, hi, hd, key _ _ (by simpa [deltaRow] using hne)⟩
+    simp only [popLL, this]
+    simp
+  · have : iany2 nIds nDim (fun i d => !(le (eta i d) (th i i d) && le (th i i d) (eta i d))) = true :=
+      (iany2_real _ _ _).2 ⟨i, d, hi, hd, key _ _ (by simpa [deltaRow] using hne)⟩
+    simp only [popLL, this]
+    simp
+
+/-- **C06 (composed: the scored density vanishes off the samples' support).** Part `k` of a composed
+    model is a pooled or heterogeneous model (bare or covariate-wrapped). If ONE individual's entry in
+    ONE of the part's columns differs from the value the part prescribes for it (the pooled value / the
+    individual's own value, as seen through the part's own slice of parameters and covariates), the
+    composed log-likelihood is `-∞` — whatever the other parts score. -/
+theorem C06_composed_delta_support (nIds : Nat) (subs : List SubModel) (params : Nat → ℝ)
+    (obs cov : Nat → Nat → ℝ) (k : Nat) (hk : k < subs.length)
+    (hkind : subs[k].kind = .pooled ∨ subs[k].kind = .hetero)
+    (i d : Nat) (hi : i < nIds) (hd : d < subs[k].nDim)
+    (hne : obs i (pcDimOff subs k + d)
+      ≠ pcSubTh nIds subs[k] params (paramOff nIds subs k) cov (pcCovOff subs k) i
+          (deltaRow subs[k].kind i) d) :
+    composedLL nIds subs params obs cov = .negInf := by
+  refine (C05_composed_additive_val nIds subs params obs cov).2 ⟨k, hk, ?_⟩
+  unfold partLL
+  rw [List.getElem?_eq_getElem hk]
+  exact delta_part_outside _ hkind nIds _ _ _ i d hi hd (by simpa [sliceObs] using hne)
+
+/-- … in numbers, for a bare pooled part: one entry off the pooled parameter `params[paramOff k + d]` -/
+theorem C06_composed_pooled_support (nIds : Nat) (subs : List SubModel) (params : Nat → ℝ)
+    (obs cov : Nat → Nat → ℝ) (k : Nat) (hk : k < subs.length)
+    (hkind : subs[k].kind = .pooled) (hc : subs[k].nCov = 0)
+    (i d : Nat) (hi : i < nIds) (hd : d < subs[k].nDim)
+    (hne : obs i (pcDimOff subs k + d) ≠ params (paramOff nIds subs k + d)) :
+    composedLL nIds subs params obs cov = .negInf := by
+  refine C06_composed_delta_support nIds subs params obs cov k hk (Or.inl hkind) i d hi hd ?_
+  rw [pcSubTh_bare _ _ hc]
+  simpa [deltaRow, hkind] using hne
+
+/-- … for a bare heterogeneous part: individual `i` off its own value `params[paramOff k + i·nDim + d]`
+    (so also: two individuals swapped, unless their values coincide) -/
+theorem C06_composed_hetero_support (nIds : Nat) (subs : List SubModel) (params : Nat → ℝ)
+    (obs cov : Nat → Nat → ℝ) (k : Nat) (hk : k < subs.length)
+    (hkind : subs[k].kind = .hetero) (hc : subs[k].nCov = 0)
+    (i d : Nat) (hi : i < nIds) (hd : d < subs[k].nDim)
+    (hne : obs i (pcDimOff subs k + d) ≠ params (paramOff nIds subs k + i * subs[k].nDim + d)) :
+    composedLL nIds subs params obs cov = .negInf := by
+  refine C06_composed_delta_support nIds subs params obs cov k hk (Or.inr hkind) i d hi hd ?_
+  rw [pcSubTh_bare _ _ hc]
+  simpa [deltaRow, hkind] using hne
+
+/-- **C06 (composed: on the support a point-mass part contributes nothing).** When every row carries
+    the part's own values, the part scores `0`: the composed score is the sum of the other parts. -/
+theorem C06_composed_delta_part_zero (nIds : Nat) (subs : List SubModel) (params : Nat → ℝ)
+    (obs cov : Nat → Nat → ℝ) (k : Nat) (hk : k < subs.length)
+    (hkind : subs[k].kind = .pooled ∨ subs[k].kind = .hetero)
+    (h : ∀ i d, i < nIds → d < subs[k].nDim → obs i (pcDimOff subs k + d)
+      = pcSubTh nIds subs[k] params (paramOff nIds subs k) cov (pcCovOff subs k) i
+          (deltaRow subs[k].kind i) d) :
+    partLL nIds subs params obs cov k = .val 0 := by
+  unfold partLL
+  rw [List.getElem?_eq_getElem hk]
+  exact delta_part_inside _ hkind nIds _ _ _ (by simpa [sliceObs] using h)
+
+/-- **C06 (composed: the pooled columns of the SAMPLED rows are in the support, with score 0).**
+    Whatever the generator produces, the rows `ComposedPopulationModel.sample` returns carry the pooled
+    parameter in every column of a bare pooled part, so that part of the composed log-likelihood of the
+    sampled rows is `0` — and by `C06_composed_pooled_support` every other value in such a column has
+    density zero: the supports of sampler and score agree. -/
+theorem C06_composed_sampled_pooled_scored (nIds nS : Nat) (subs : List SubModel) (params : Nat → ℝ)
+    (cov : Nat → Nat → ℝ) (fs : List (Ful ℝ)) (k : Nat) (hk : k < subs.length)
+    (hkind : subs[k].kind = .pooled) (hc : subs[k].nCov = 0) :
+    partLL nIds subs params (fun r dg => composedEntry nIds nS params cov fs subs 0 0 0 0 r dg) cov k
+      = .val 0 := by
+  refine C06_composed_delta_part_zero nIds subs params _ cov k hk (Or.inl hkind) ?_
+  intro i d _ hd
+  have hE := C06_composed_entry nIds nS params cov fs subs k hk i d hd
+  have hoff : pcDimOff subs k = smpDimOff subs k := rfl
+  rw [hoff, hE, pcSubTh_bare _ _ hc]
+  simp [SubModel.entry, hc, elemEntry, hkind, subTh, SubModel.th, deltaRow, parOff, paramOff]
+
+/-- … and a sampled row of a bare heterogeneous part is the row of ONE modelled individual (the drawn
+    index), in all of the part's columns at once -/
+theorem C06_composed_sampled_hetero_row (nIds nS : Nat) (subs : List SubModel) (params : Nat → ℝ)
+    (cov : Nat → Nat → ℝ) (fs : List (Ful ℝ)) (k : Nat) (hk : k < subs.length)
+    (hkind : subs[k].kind = .hetero) (hc : subs[k].nCov = 0) (r d : Nat) (hd : d < subs[k].nDim) :
+    composedEntry nIds nS params cov fs subs 0 0 0 0 r (smpDimOff subs k + d)
+      = params (parOff nIds subs k + ixAt fs (reqOff nS subs k) r * subs[k].nDim + d) := by
+  rw [C06_composed_entry nIds nS params cov fs subs k hk r d hd]
+  simp [SubModel.entry, hc, elemEntry, hkind, subTh, SubModel.th, Nat.add_assoc]
+
+/-- a loop that SKIPS the parts without individual-level ("hierarchical") dimensions — as the
+    bottom-level bookkeeping of the hierarchical log-likelihood legitimately does — is NOT the composed
+    density: for one pooled part with value `3` it scores the row `2.5` with `0` instead of `-∞` -/
+def composedLLSkipGo {α : Type} [Add α] [Sub α] [Mul α] [Div α] [Neg α] [ScalarFns α] [HasErf α]
+    (nIds : Nat) (params : Nat → α) (obs cov : Nat → Nat → α) :
+    List SubModel → (curDim curParam curCov : Nat) → Score α → Score α
+  | [], _, _, _, acc => acc
+  | s :: ss, curDim, curParam, curCov, acc =>
+    composedLLSkipGo nIds params obs cov ss (curDim + s.nDim) (curParam + s.nTop nIds) (curCov + s.nCov)
+      (if s.kind.hierarchical then
+        Score.add acc (popLL s.kind nIds s.nDim (pcSubTh nIds s params curParam cov curCov)
+          (sliceObs obs curDim))
+       else acc)
+
+theorem C06_composed_skip_counterexample :
+    let subs : List SubModel := [⟨.pooled, 1, 0, []⟩]
+    composedLLSkipGo 1 (fun _ => (3:ℝ)) (fun _ _ => (5/2:ℝ)) (fun _ _ => (0:ℝ)) subs 0 0 0 Score.zero
+        = .val 0
+    ∧ composedLL 1 subs (fun _ => (3:ℝ)) (fun _ _ => (5/2:ℝ)) (fun _ _ => (0:ℝ)) = .negInf := by
+  refine ⟨by simp [composedLLSkipGo, Kind.hierarchical, Score.zero], ?_⟩
+  refine C06_composed_pooled_support 1 _ _ _ _ 0 (by simp) rfl rfl 0 0 (by simp) (by simp) ?_
+  norm_num
+
+/-- non-vacuity of `C06_composed_sampled_pooled_scored` / `C06_composed_pooled_support`: a log-normal,
+    a pooled (value 3) and a Gaussian part; the sampled rows score `0` in the pooled part, the same rows
+    under the pooled value `5/2` score `-∞` -/
+example :
+    let subs : List SubModel := [⟨.logn true, 1, 0, []⟩, ⟨.pooled, 1, 0, []⟩, ⟨.gauss true, 1, 0, []⟩]
+    let th : Nat → ℝ := fun j => if j = 2 then 3 else 1
+    let th' : Nat → ℝ := fun j => if j = 2 then 5/2 else 1
+    ∀ fs : List (Ful ℝ),
+      partLL 4 subs th (fun r dg => composedEntry 4 4 th (fun _ _ => 0) fs subs 0 0 0 0 r dg)
+          (fun _ _ => 0) 1 = .val 0
+      ∧ composedLL 4 subs th' (fun r dg => composedEntry 4 4 th (fun _ _ => 0) fs subs 0 0 0 0 r dg)
+          (fun _ _ => 0) = .negInf := by
+  intro subs th th' fs
+  refine ⟨C06_composed_sampled_pooled_scored 4 4 subs th _ fs 1 (by simp [subs]) rfl rfl, ?_⟩
+  refine C06_composed_pooled_support 4 subs th' _ _ 1 (by simp [subs]) rfl rfl 0 0 (by simp)
+    (by simp [subs]) ?_
+  have hE := C06_composed_entry 4 4 th (fun _ _ => (0:ℝ)) fs subs 1 (by simp [subs]) 0 0 (by simp [subs])
+  have hoff : pcDimOff subs 1 = smpDimOff subs 1 := rfl
+  rw [hoff, hE]
+  simp [subs, SubModel.entry, elemEntry, subTh, SubModel.th, parOff, paramOff, th, th', SubModel.nTop,
+    SubModel.nPop, Kind.perDim]
+  norm_num
+
 /-! ## non-vacuity -/
 
 /-- a concrete Gaussian error-model sample array: 2 time points, 3 samples, no error -/
